@@ -215,6 +215,8 @@ func runC28(x *vt.Ctx, c DownCase) *vt.Finding {
 }
 
 var propC28 = vt.Prop[DownCase]{ID: "C28", Test: "TestC28", Gen: genC28, Run: runC28,
-	Retry: func(f *vt.Finding) bool { return strings.HasPrefix(f.Key, "not-reported-down") || f.Key == "watcher-not-active" }}
+	Retry: func(f *vt.Finding) bool {
+		return strings.HasPrefix(f.Key, "not-reported-down") || f.Key == "watcher-not-active"
+	}}
 
 func TestC28(t *testing.T) { topT = t; propC28.Check(t) }
